@@ -242,9 +242,9 @@ def run_miri(cases, budget_s=2400):
     t0 = time.time()
     env = dict(ENV, MIRIFLAGS='-Zmiri-disable-isolation', CARGO_NET_OFFLINE='true')
     cmd = ['timeout', str(budget_s), 'cargo', '+nightly', 'miri', 'run', '--offline', '--features', 'cfg_nostd',
-           '--target-dir', CACHE + '/target-miri']
+           '--target-dir', CACHE + '/target-miri' + TAG]
     try:
-        p = subprocess.run(cmd, cwd=HARNESS, input='\n'.join(lines) + '\n', stdout=subprocess.PIPE, stderr=subprocess.PIPE,
+        p = subprocess.run(cmd, cwd=harness_dir(), input='\n'.join(lines) + '\n', stdout=subprocess.PIPE, stderr=subprocess.PIPE,
                            text=True, env=env, timeout=budget_s + 60)
     except Exception as e:  # miri unusable here: not a verdict
         info.update({'usable': False, 'why': repr(e)[:300]})
